@@ -501,12 +501,36 @@ fn entry_matches(entry: &str, v: &In) -> Option<bool> {
       _ => return None,
     },
     "\"a\"" => *v == In::Str("a"),
+    "<=2" => n.map(|x| x <= 2).unwrap_or(false),
+    ">2" => n.map(|x| x > 2).unwrap_or(false),
+    "[1..3)" => n.map(|x| x >= 1 && x < 3).unwrap_or(false),
+    "(1..3]" => n.map(|x| x > 1 && x <= 3).unwrap_or(false),
+    // negated comparisons, intervals and disjunctions: defined on numbers, left open otherwise (as not(1))
+    "not(<2)" | "not(<=2)" | "not(>=2)" | "not(>2)" | "not([1..2])" | "not((1..3))" | "not(<=1,>=3)" | "not(<1,[2..3])" => match v {
+      In::Num(x) => {
+        let x = *x;
+        !match entry {
+          "not(<2)" => x < 2,
+          "not(<=2)" => x <= 2,
+          "not(>=2)" => x >= 2,
+          "not(>2)" => x > 2,
+          "not([1..2])" => (1..=2).contains(&x),
+          "not((1..3))" => x > 1 && x < 3,
+          "not(<=1,>=3)" => x <= 1 || x >= 3,
+          _ => x < 1 || (2..=3).contains(&x),
+        }
+      }
+      _ => return None,
+    },
     _ => return None,
   })
 }
 
-const ENTRIES: &[&str] = &["-", "1", "<2", ">=2", "[1..2]", "(1..3)", "]1..3[", "1,3", "not(1)", "not(1,2)", "\"a\""];
-const ENTRIES_SMALL: &[&str] = &["-", "1", ">=2", "[1..2]", "not(1)"];
+const ENTRIES: &[&str] = &[
+  "-", "1", "<2", ">=2", "[1..2]", "(1..3)", "]1..3[", "1,3", "not(1)", "not(1,2)", "\"a\"", "<=2", ">2", "[1..3)", "(1..3]", "not(<2)", "not(<=2)", "not(>=2)", "not(>2)", "not([1..2])", "not((1..3))", "not(<=1,>=3)",
+  "not(<1,[2..3])",
+];
+const ENTRIES_SMALL: &[&str] = &["-", "1", ">=2", "[1..2]", "not(1)", "not(<=2)"];
 
 fn ctx_of(pairs: &[(&str, &In)]) -> FeelContext {
   let mut c = FeelContext::default();
